@@ -236,8 +236,23 @@ func obfuscationPhase() (docs, violating int64) {
 		if r.Expired() {
 			return
 		}
-		fs, ok := renderCheck(list[i].doc)
-		if !ok || len(fs) == 0 {
+		fs, feats, ok := renderCheck(list[i].doc)
+		if !ok {
+			return
+		}
+		switch { // non-vacuity: what became of the destination
+		case len(fs) > 0:
+			bump("obfuscation:VIOLATING")
+		case feats["neutralised-url"]:
+			bump("obfuscation:link rendered, URL blanked by the renderer")
+		case feats["el:a"] || feats["el:img"]:
+			bump("obfuscation:link rendered, URL inert after the browser's single decode")
+		case feats["el:form"]:
+			bump("obfuscation:form rendered")
+		default:
+			bump("obfuscation:no link element (construct not recognised as a link)")
+		}
+		if len(fs) == 0 {
 			return
 		}
 		seen := map[finding]bool{}
